@@ -199,3 +199,41 @@ func vh_C18_DefaultConstructors() {
 	}
 	vfReach("end")
 }
+
+// two instances constructed from ONE caller-owned interceptor slice that has spare capacity (the variadic constructor
+// adopts the slice it is given): AddInterceptor / RemoveInterceptor on one instance affect exactly that instance - the
+// other one, and a later request through it, still run exactly their own registrations
+func vh_C18_SharedInitialList() {
+	var log []string
+	tr := &vhTransport{log: &log}
+	ics := c18Setup(&log, -1)
+	initial := vfRange("initial", 0, 2)
+	base := make([]*Interceptor, 0, initial+vfRange("spare", 0, 2))
+	var m1, m2 []int
+	for i := 0; i < initial; i++ {
+		base = append(base, ics[i])
+		m1, m2 = append(m1, i), append(m2, i)
+	}
+	s1 := NewSimpleHTTPWithClientAndInterceptors(&http.Client{Transport: tr}, base...)
+	s2 := NewSimpleHTTPWithClientAndInterceptors(&http.Client{Transport: tr}, base...)
+	k1, k2 := vfChoose("first-adds", 3), vfChoose("second-adds", 3)
+	s1.AddInterceptor(ics[k1])
+	m1 = append(append([]int{}, m1...), k1)
+	switch vfChoose("second-does", 3) {
+	case 0:
+		s2.AddInterceptor(ics[k2])
+		m2 = append(append([]int{}, m2...), k2)
+	case 1:
+		s2.AddInterceptor(ics[k2], ics[(k2+1)%3])
+		m2 = append(append([]int{}, m2...), k2, (k2+1)%3)
+	default:
+		if initial > 0 {
+			s2.RemoveInterceptor(ics[0])
+			m2 = append([]int{}, m2[1:]...)
+		}
+	}
+	if !c18Request(s1, tr, &log, m1, -1, 0) || !c18Request(s2, tr, &log, m2, -1, 0) {
+		return
+	}
+	vfReach("end")
+}
